@@ -244,7 +244,11 @@ def check(case, rec):
                 "samples\n%s" % (fig.get("Num samples"),
                                  fig.get("Num observations"), n, m, text))
         if not qual:
-            if abs(int(fig["Total count"]) - D.sum()) > 1:
+            # whole-number tables have an exact total; otherwise the report
+            # truncates a float sum whose last bit depends on the order
+            exact = bool(np.all(D == np.floor(D))) and \
+                float(np.abs(D).sum()) < 2 ** 52
+            if abs(int(fig["Total count"]) - D.sum()) > (0 if exact else 1):
                 bad(kind, "Total count %s, matrix total %r" %
                     (fig["Total count"], D.sum()))
             dens = float((D != 0).sum()) / (n * m)
@@ -418,6 +422,42 @@ def check(case, rec):
     if observe.snapshot(t) != before:
         bad("table-changed", "the summary changed the table")
     rec.nt(nt and bool((D != 0).any()))
+
+
+# ---------------------------------------------------------------------------
+# exhaustive: the report header for every (number of units, total count)
+
+ENUM_UNITS = {"quick": 24, "thorough": 40}
+ENUM_EXTRA = {"quick": 40, "thorough": 200}
+
+
+def ENUM_NAME(tier):
+    return ("exhaustive: summarize-table on one-row count tables for every "
+            "number of samples 1..%d x every total n..n+%d (and the "
+            "transposed table with --observations)" %
+            (ENUM_UNITS[tier], ENUM_EXTRA[tier] - 1))
+
+
+def enum_chunks(tier):
+    return list(range(1, ENUM_UNITS[tier] + 1))
+
+
+def enum_chunk(tier, n):
+    for extra in range(ENUM_EXTRA[tier]):
+        # n units, total n + extra: all ones, the surplus spread over the
+        # first units
+        vals = [1.0 + (extra // n) + (1.0 if k < extra % n else 0.0)
+                for k in range(n)]
+        obs_mode = extra % 2 == 1
+        ids = ["u%d" % k for k in range(n)]
+        spec = {"obs": ids if obs_mode else ["only"],
+                "samp": ["only"] if obs_mode else ids,
+                "rows": [[v] for v in vals] if obs_mode else [vals],
+                "obs_md": None, "samp_md": None, "type": None,
+                "form": "dense", "history": []}
+        yield {"table": spec, "kind": "summarize", "axis": "sample",
+               "flag": False, "flag2": obs_mode, "n": 2, "m": 1, "f": "add",
+               "sub": False}
 
 
 _T = {"obs": ["o1", "o2"], "samp": ["s1", "s2", "s3"],
